@@ -2878,3 +2878,12 @@ func edgeGovernor(blk, to *ssa.BasicBlock) (ssa.Value, bool, bool) {
 	}
 	return nil, false, false
 }
+
+// edgeFacts adds what the branch at the end of block from says about the edge from -> to.
+func (p *bndProver) edgeFacts(from, to *ssa.BasicBlock) {
+	iff, ok := from.Instrs[len(from.Instrs)-1].(*ssa.If)
+	if !ok || from.Succs[0] == from.Succs[1] {
+		return
+	}
+	p.condFact(iff.Cond, from.Succs[0] == to, 0)
+}
